@@ -5,7 +5,7 @@ use crate::{
         wal::AnalysisResult,
     },
     runtime::{
-        RuntimeResult,
+        RuntimeError, RuntimeResult,
         context::{ThreadContext, TransactionLogger},
         ddl::{
             AlterTableInstr, CreateIndexInstr, CreateTableInstr, DdlExecutor, DdlInstruction,
@@ -13,6 +13,7 @@ use crate::{
         },
         dml::DmlExecutor,
     },
+    schema::catalog::CatalogError,
     storage::tuple::Row,
 };
 
@@ -49,15 +50,17 @@ impl WalRecuperator {
                 ErrorKind::NotSeekable,
                 "transaction not found in th write ahead analysis",
             ))? {
+                // A loser's row operation on a table that a committed transaction dropped afterwards
+                // has nothing left to undo.
                 if let Some(delete_operation) = analysis.delete_ops.get(&lsn) {
-                    self.undo_delete(delete_operation)?;
+                    Self::unless_table_gone(self.undo_delete(delete_operation))?;
                 }
                 if let Some(update_operation) = analysis.update_ops.get(&lsn) {
-                    self.undo_update(update_operation)?;
+                    Self::unless_table_gone(self.undo_update(update_operation))?;
                 }
 
                 if let Some(insert_operation) = analysis.insert_ops.get(&lsn) {
-                    self.undo_insert(insert_operation)?;
+                    Self::unless_table_gone(self.undo_insert(insert_operation))?;
                 }
 
                 if let Some(create_operation) = analysis.create_ops.get(&lsn) {
@@ -73,6 +76,13 @@ impl WalRecuperator {
         }
 
         Ok(())
+    }
+
+    fn unless_table_gone(result: RuntimeResult<()>) -> RuntimeResult<()> {
+        match result {
+            Err(RuntimeError::Catalog(CatalogError::TableNotFound(_))) => Ok(()),
+            other => other,
+        }
     }
 
     /// Run all the redo.
